@@ -79,7 +79,7 @@ def victimRow (st : Strategy) (p1 p2 p3 : Int) (c1 c2 c3 : Nat) : List Nat :=
 
 def victimDomain : List (Strategy × Int × Int × Int × Nat × Nat × Nat) :=
   let ps : List Int := [0, 1, 2]
-  let cs : List Nat := [0, 1, 2]
+  let cs : List Nat := [0, 90000000000, 255600000000]     -- 0, 25 h, 71 h in microseconds (ages of 3 d, 1 d 23 h, 1 h at 72 h)
   [Strategy.priority, .oldest, .other].flatMap fun st =>
     ps.flatMap fun p1 => ps.flatMap fun p2 => ps.flatMap fun p3 =>
       cs.flatMap fun c1 => cs.flatMap fun c2 => cs.map fun c3 => (st, p1, p2, p3, c1, c2, c3)
